@@ -1,7 +1,7 @@
 (* C13 — A repeating observer sees its producers' final output and then stops.  Property theorems only. *)
 From Coq Require Import ZArith List Bool.
 Import ListNotations.
-Require Import V.Repeat.Model V.Repeat.Proofs.
+Require Import V.Repeat.Model V.Repeat.Proofs V.Repeat.Final.
 Open Scope Z_scope.
 
 (* Never executes before there is output it can consume: in every run (any interleaving of clock advances,
@@ -75,6 +75,30 @@ Proof.
 Qed.
 Print Assumptions C13_cancelled_then_stops.
 
+(* Sees the final output.  Hypotheses, all explicit: no kill delay configured, and the event sequence is `quiet`:
+   time does not run backwards, nobody kills the engine from outside, and no producer writes output once the
+   producers are finished (the notification follows the last output).  Then an engine that is cancelled - which
+   it can then only have done itself - and was able to consume, with last producer output at time l:
+   (a) for EVERY repeatRetries: either some execution started at or after l, or the engine never executed at
+       all and l is not newer than its own start (this is exactly finding F13);
+   (b) with repeatRetries >= 5 some execution started at or after l.  The spacing of the polls is not assumed:
+       it is derived from schedule_next_instance (>= 5 s after the previous invocation ended). *)
+Theorem C13_final_output_classified : forall c evs l,
+  c_has_delay c = false -> quiet c (init c) evs ->
+  let s := run c (init c) evs in
+  cancel s = true -> consume s = true -> lo s = Some l ->
+  (exists x, In x (execs s) /\ l <= x_launch x) \/ (execs s = [] /\ l <= c_t0 c).
+Proof. intros c evs l Hd Hq. exact (final_output_classified c Hd evs Hq l). Qed.
+Print Assumptions C13_final_output_classified.
+
+Theorem C13_sees_final_output : forall c evs l,
+  c_has_delay c = false -> 5 <= eff_retries c -> quiet c (init c) evs ->
+  let s := run c (init c) evs in
+  cancel s = true -> consume s = true -> lo s = Some l ->
+  exists x, In x (execs s) /\ l <= x_launch x.
+Proof. intros c evs l Hd HR Hq. exact (sees_final_output c Hd HR evs Hq l). Qed.
+Print Assumptions C13_sees_final_output.
+
 (* non-vacuity: default retries; an execution, the notification, a failed execution, a poll without new output,
    new output and a successful execution: two retries used, the engine stops by itself *)
 Definition ex_cfg : cfg := {| c_retries := None; c_has_prod := true; c_same_stage := true; c_prod_rep := true;
@@ -87,3 +111,18 @@ Example C13_nonvacuous :
   map x_launch (rev (execs s)) = [110000; 116000; 127000] /\ retries s = 1 /\ cancel s = true /\ mon_done s = true /\
   exit_reason s = RSuccess /\ pf s = true /\ nact s = 5.
 Proof. vm_compute. repeat split; reflexivity. Qed.
+
+(* the hypotheses of C13_sees_final_output are satisfiable by a run in which the engine stops by itself:
+   6 retries, output older than the start, notified before the first poll: the fifth poll is forced to execute *)
+Definition ex_cfg6 : cfg := {| c_retries := Some 6; c_has_prod := true; c_same_stage := true; c_prod_rep := true;
+  c_check_out := true; c_has_delay := false; c_interval := 10000; c_t0 := 100000 |}.
+Definition ex_evs6 : list event :=
+  [Out; Notify; Poll (ex_o 0); Adv 5000; Poll (ex_o 0); Adv 5000; Poll (ex_o 0); Adv 5000; Poll (ex_o 0);
+   Adv 5000; Poll (ex_o 0); Adv 5000; Poll (ex_o 0)].
+Example C13_sees_nonvacuous :
+  quiet ex_cfg6 (init ex_cfg6) ex_evs6 /\
+  let s := run ex_cfg6 (init ex_cfg6) ex_evs6 in
+  cancel s = true /\ consume s = true /\ lo s = Some 100000 /\ map x_launch (execs s) = [125000] /\ retries s = 1.
+Proof.
+  vm_compute. repeat split; try reflexivity; try (intro H; discriminate H); try (intros _ H; discriminate H).
+Qed.
